@@ -23,7 +23,8 @@ Qed.
 Lemma subsetb_sound l1 l2 : forallb (fun k => zmem k l2) l1 = true -> forall k, In k l1 -> In k l2.
 Proof. rewrite forallb_forall. intros H k Hk. apply zmem_in. apply H; auto. Qed.
 
-Definition K0 : consts := mkConsts 101 (-2) 103 105 107 109 111 113 115 117 109 119.
+Definition K0 : consts := mkConsts 101 (-2) 103 105 107 109 111 113 115 117 109 119 false.   (* copy() as the code does it: a fresh memo per entry *)
+Definition K1 : consts := mkConsts 101 (-2) 103 105 107 109 111 113 115 117 109 119 true.    (* the other allowed policy: one memo for all entries *)
 
 (* names: Y = 201, C = 203, G = 205 *)
 Definition class_heap (tracer : Z) (trace_vars : option (list Z)) : heap :=
@@ -79,28 +80,27 @@ Example ex_pre_fix_init_shares :
   nth 2 (root_views s2 4) CCut <> nth 2 (root_views s1 4) CCut.
 Proof. vm_compute. repeat split; discriminate. Qed.
 
-(* ---- kept finding: TracerMixin.trace_t stores the class's TRACE_VARIABLES list itself in the Trace:
-   a history applied to the INSTANCE only (m.trace_t(1, ..., trace=True); m.trace[1].names.append(777)) changes the CLASS *)
+(* ---- repaired by fix cfb58ac (was the kept finding): TracerMixin.trace_t gives the Trace a list of its own, so the history
+   m.trace_t(1, ..., trace=True); m.trace[1].names.append(777) applied to the INSTANCE leaves the CLASS (root 0) as it was *)
 Definition s_tr : state := run_events K0 (s0 1 (Some [203; 201])) [EInit 0 (args range_span)].
 Definition leak_ops : list op := [OTraceT 1 501 TMClass false; OPathAppend [V N_trace; 1; A N_names] 777].
 
-Theorem tracer_class_list_leak_refuted :
-  exists (s : state) (ops : list op) (j : nat) (rj : loc),
-    roots_ok s /\ nth_error (sroots s) j = Some rj /\ j <> 1%nat /\
-    view 3 (sh (run_hevents K0 s [HOps 1 ops])) (VR rj) <> view 3 (sh s) (VR rj).
+Example ex_former_leak_now_local :
+  roots_ok s_tr /\ nth_error (sroots s_tr) 0 = Some 4%nat /\
+  view 3 (sh (run_hevents K0 s_tr [HOps 1 leak_ops])) (VR 4%nat) = view 3 (sh s_tr) (VR 4%nat) /\
+  nth 1 (root_views (run_hevents K0 s_tr [HOps 1 leak_ops]) 5) CCut <> nth 1 (root_views s_tr 5) CCut /\
+  sharing (run_hevents K0 s_tr [HOps 1 leak_ops]) = [].
 Proof.
-  exists s_tr, leak_ops, 0%nat, 4%nat.
-  split; [apply roots_okb_sound; vm_compute; reflexivity|].
-  split; [reflexivity|]. split; [discriminate|].
-  vm_compute. intros E. discriminate E.
+  split; [apply roots_okb_sound; vm_compute; reflexivity|]. split; [reflexivity|].
+  vm_compute. split; [reflexivity|]. split; [intros E; discriminate E | reflexivity].
 Qed.
 
-(* ... because the compiled operation is a leaky action, outside event_ok *)
-Example ex_leak_ops_not_ok :
-  forallb (fun a => negb (act_leaky a)) (compile_op K0 (sh s_tr) 5%nat (OTraceT 1 501 TMClass false)) = false.
+(* ... the compiled operation is tight now *)
+Example ex_leak_ops_now_tight :
+  forallb (fun a => negb (act_leaky a)) (compile_op K0 (sh s_tr) 5%nat (OTraceT 1 501 TMClass false)) = true.
 Proof. vm_compute. reflexivity. Qed.
 
-(* with TRACE_VARIABLES = None the Trace stores the instance's OWN names list: nothing leaves the instance *)
+(* with TRACE_VARIABLES = None the Trace stores a copy of the instance's names list *)
 Example ex_trace_names_ok :
   forallb (fun a => negb (act_leaky a))
           (compile_op K0 (sh (run_events K0 (s0 1 None) [EInit 0 (args range_span)])) 5%nat (OTraceT 1 501 TMNames false)) = true.
@@ -120,21 +120,36 @@ Proof.
   vm_compute. split; [reflexivity | intros E; discriminate E].
 Qed.
 
-(* ---- a stronger reading of "observationally equal" (equal under every LATER operation too) is refuted — the copy is MORE
-   separated than the original: after a traced solve with TRACE_VARIABLES = None the Trace's `names` IS the model's `names`
-   list (C17's finding); copy() deep-copies entry by entry, so in the copy they are two lists.  The same later operation
-   (add_variable) then shows on the original's Trace but not on the copy's.  Equality at copy time (what C11 states) holds. *)
+(* ---- since fix cfb58ac a traced solve creates no aliasing between the model's `names` and the Trace's: original and copy stay
+   equal under the same later operation (add_variable on both sides) — the former witness copy_unshares_internal_alias no longer
+   exists *)
 Definition s_al : state :=
   run_hevents K0 (run_events K0 (s0 1 None) [EInit 0 (args range_span)]) [HOps 1 [OTraceT 1 501 TMNames false]].
 
-Theorem copy_unshares_internal_alias_refuted :
+Example ex_copy_of_traced_model_stays_equal :
   let s1 := run_events K0 s_al [ECopy 1] in
-  (* equal at copy time, at every depth we look *)
   nth 2 (root_views s1 6) CCut = nth 1 (root_views s1 6) CCut /\
-  (* but the same operation applied to both sides makes them differ *)
   let s2 := run_hevents K0 s1 [HOps 1 [OAddVariable 207 109 [1; 2; 3]]; HOps 2 [OAddVariable 207 109 [1; 2; 3]]] in
-  nth 2 (root_views s2 6) CCut <> nth 1 (root_views s2 6) CCut.
-Proof. vm_compute. split; [reflexivity | intros E; discriminate E]. Qed.
+  nth 2 (root_views s2 6) CCut = nth 1 (root_views s2 6) CCut.
+Proof. vm_compute. split; reflexivity. Qed.
+
+(* ---- the two memo policies of copy() differ only when the USER has aliased two entries of one object (m.mine = m.names):
+   with a fresh memo per entry (K0, the code) the copy's `mine` and `names` are two lists, with one memo (K1) they stay one list;
+   both copies equal the original at copy time, both are disjoint from it, and the same later append shows the difference *)
+Definition s_ua : state :=
+  run_hevents K0 (run_events K0 (s0 0 None) [EInit 0 (args range_span)]) [HOps 1 [OAliasAttr 213 [A N_names]]].
+
+Example ex_memo_policies :
+  let c0 := run_events K0 s_ua [ECopy 1] in
+  let c1 := run_events K1 s_ua [ECopy 1] in
+  nth 2 (root_views c0 6) CCut = nth 1 (root_views c0 6) CCut /\
+  nth 2 (root_views c1 6) CCut = nth 1 (root_views c1 6) CCut /\
+  sharing c0 = [] /\ sharing c1 = [] /\
+  let ops := [HOps 2 [OListAppend 213 777]] in
+  nth 2 (root_views (run_hevents K0 c0 ops) 6) CCut <> nth 2 (root_views (run_hevents K1 c1 ops) 6) CCut /\
+  nth 1 (root_views (run_hevents K0 c0 ops) 6) CCut = nth 1 (root_views c0 6) CCut /\
+  nth 1 (root_views (run_hevents K1 c1 ops) 6) CCut = nth 1 (root_views c1 6) CCut.
+Proof. vm_compute. repeat split; try reflexivity. intros E; discriminate E. Qed.
 
 (* ---- the hypothesis of copy_sim about fresh keys is needed: the class NAMES list was extended after `a` was created; a.copy()
    runs __init__ of the CURRENT class and keeps the extra series as an orphan __dict__ entry (not listed in `index`, so no public
@@ -218,8 +233,8 @@ Example ex_copy_then_ops_share_nothing :
   roots_ok s /\ sharing (run_hevents K0 (run_event K0 s (ECopy 1)) ops_history) = [].
 Proof. split; [apply roots_okb_sound; vm_compute; reflexivity | vm_compute; reflexivity]. Qed.
 
-(* the excluded operation is exactly the kept finding *)
-Example ex_leak_op_not_ok : forallb op_ok leak_ops = false.
+(* the formerly excluded operation is inside the theorems now *)
+Example ex_leak_history_ok : forallb hevent_ok [HOps 1 leak_ops] = true.
 Proof. reflexivity. Qed.
 
 (* ---- the hypothesis of copy_submodels_sim is decidable, and holds for the two submodels of the linker above *)
